@@ -32,7 +32,9 @@ fn install_panic_hook(print: bool) {
         };
         let loc = info.location().map_or(String::new(), |l| format!(" at {}:{}:{}", l.file(), l.line(), l.column()));
         let full = format!("{msg}{loc}");
-        if print {
+        if print || msg.contains("unsafe precondition") || msg.contains("cannot unwind") {
+            // a non-unwinding panic (std's unsafe-precondition checks) is about to abort the
+            // process: leave the reason on stderr for the driver
             eprintln!("panic: {full}");
         }
         LAST_PANIC.with(|p| *p.borrow_mut() = Some(full));
@@ -141,6 +143,9 @@ fn main() {
             let shard: u64 = a.get("shard").and_then(|s| s.parse().ok()).unwrap_or(0);
             let nshards: u64 = a.get("nshards").and_then(|s| s.parse().ok()).unwrap_or(1);
             let out = a.get("out").cloned().unwrap_or_else(|| "/dev/stdout".into());
+            if out != "/dev/stdout" {
+                ctx.rep.side_path = Some(format!("{out}.violations"));
+            }
             let mut n = props::num_cases(&prop, &ctx);
             if let Some(c) = a.get("cases").and_then(|s| s.parse::<u64>().ok()) {
                 n = c;
@@ -153,8 +158,31 @@ fn main() {
             let mut journal = a.get("journal").map(|p| {
                 std::fs::OpenOptions::new().create(true).append(true).open(p).expect("harness: journal")
             });
+            // per-case wall-clock watchdog: a case normally takes milliseconds (the largest probes a
+            // few seconds). A case that does not come back (e.g. a builder that loops) must not stall
+            // the whole check until the driver's watchdog fires: the worker gives up on it.
+            let heartbeat = std::sync::Arc::new(std::sync::atomic::AtomicU64::new(0));
+            let cur_case = std::sync::Arc::new(std::sync::atomic::AtomicU64::new(u64::MAX));
+            {
+                let (hb, cc) = (heartbeat.clone(), cur_case.clone());
+                let limit_s: u64 = a.get("case-timeout").and_then(|s| s.parse().ok()).unwrap_or(match ctx.mode { Mode::Miri => 1500, Mode::Native => 150, _ => 400 });
+                let t0 = std::time::Instant::now();
+                std::thread::spawn(move || loop {
+                    std::thread::sleep(std::time::Duration::from_secs(2));
+                    let started = hb.load(std::sync::atomic::Ordering::Relaxed);
+                    let now = t0.elapsed().as_secs();
+                    if started != 0 && now.saturating_sub(started) > limit_s {
+                        eprintln!("CASE-TIMEOUT case {} did not finish within {} s", cc.load(std::sync::atomic::Ordering::Relaxed), limit_s);
+                        std::process::exit(98);
+                    }
+                });
+                heartbeat.store(1, std::sync::atomic::Ordering::Relaxed);
+            }
+            let t_start = std::time::Instant::now();
             let mut idx = first + shard;
             while idx < n {
+                heartbeat.store(t_start.elapsed().as_secs().max(1), std::sync::atomic::Ordering::Relaxed);
+                cur_case.store(idx, std::sync::atomic::Ordering::Relaxed);
                 if let Some(j) = journal.as_mut() {
                     let _ = writeln!(j, "{idx}");
                     let _ = j.flush();
